@@ -1,4 +1,5 @@
 import Operon.Lemmas.C11
+import Operon.Gen.ChaperoneTables
 /-!
 # C11 — output validator: 'valid' implies the schema holds; clean JSON is taken verbatim
 
@@ -317,5 +318,39 @@ theorem c11_stats_step (env : Env J S C) (cfg : Cfg) (st st' : Stats) (raw : Tex
     exact ⟨rfl, by simp, fun s => bumpAll_ge _ _ s⟩
   · rw [hx] at h; simp at h; obtain ⟨rfl, rfl⟩ := h
     exact ⟨rfl, by simp [hxv], fun s => bumpAll_ge _ _ s⟩
+
+/-! ## The tables and constants the model uses are the ones in the source (regenerated every run) -/
+
+/-- The extraction table, the repair table, the default strategy order, the members of `FoldingStrategy` and
+    every confidence literal / formula, as extracted from the current source (`Operon/Gen/ChaperoneTables.lean`,
+    rewritten by every run), equal what the model uses: index `i` of `findall i` / `sub i` is entry `i` of the
+    pinned tables, `patternIds` / `repairIds` enumerate them in table order, `defaultStrategies` is the default
+    order, and the `Rat` constants of the model are the decimal literals of the source. -/
+theorem c11_extracted_tables_agree :
+    Gen.ChaperoneTables.patterns = some (extractionTable.map fun e => (cps e.1, cps e.2)) ∧
+    Gen.ChaperoneTables.repairs = some (repairTable.map fun e => (cps e.1, cps e.2.1, cps e.2.2)) ∧
+    patternIds = List.range extractionTable.length ∧ repairIds = List.range repairTable.length ∧
+    Gen.ChaperoneTables.defaultOrder = some (defaultStrategies.map Strategy.name) ∧
+    Gen.ChaperoneTables.strategyMembers = some ([.strict, .extraction, .lenient, .repair].map Strategy.name) ∧
+    Gen.ChaperoneTables.strictConfidence.map q = some cStrict ∧
+    Gen.ChaperoneTables.extractionConfidence.map q = some cExtraction ∧
+    Gen.ChaperoneTables.failedConfidence.map q = some cFailed ∧
+    Gen.ChaperoneTables.defaultConfidence.map q = some cDefault ∧
+    (∃ b s f, Gen.ChaperoneTables.lenientFormula = some (b, s, f) ∧
+      ∀ n, lenientConfidence n = ratMax (q f) (q b - (n : Rat) * q s)) ∧
+    (∃ b s f, Gen.ChaperoneTables.repairFormula = some (b, s, f) ∧
+      ∀ n, repairConfidence n = ratMax (q f) (q b - (n : Rat) * q s)) := by
+  refine ⟨by decide +kernel, by decide +kernel, by decide, by decide, by decide, by decide,
+    by decide +kernel, by decide +kernel, by decide +kernel, by decide +kernel, ?_, ?_⟩
+  · refine ⟨_, _, _, rfl, fun n => ?_⟩
+    have h1 : q (1, 2) = 1 / 2 := by decide +kernel
+    have h2 : q (17, 20) = 17 / 20 := by decide +kernel
+    have h3 : q (1, 20) = 1 / 20 := by decide +kernel
+    rw [h1, h2, h3]; rfl
+  · refine ⟨_, _, _, rfl, fun n => ?_⟩
+    have h1 : q (2, 5) = 2 / 5 := by decide +kernel
+    have h2 : q (3, 4) = 3 / 4 := by decide +kernel
+    have h3 : q (1, 20) = 1 / 20 := by decide +kernel
+    rw [h1, h2, h3]; rfl
 
 end Operon.Chaperone
